@@ -193,6 +193,17 @@ func c13(c *Ctx) {
 			pt := int64(pts) * 1000
 			// elapsed: around slot boundaries, several rounds
 			k := int64(c.Rnd.Intn(4*n + 2))
+			if c.Rnd.Intn(6) == 0 {
+				// a long outage: the parent is weeks, months or years old (a halted chain restarting, a stale genesis). The elapsed time in
+				// milliseconds passes 2^31, 2^32 and multiples of it: any narrowing of the elapsed time to 32 bits on one side only
+				// (verifier vs miner window) shows here and nowhere near the parent
+				base := []int64{1 << 31, 1 << 32, 2 << 32, 3<<32 + 12345, 7 << 32, 400 * 86400000, 1<<32 - 1, 1<<31 - 1}[c.Rnd.Intn(8)]
+				k = base/T + int64(c.Rnd.Intn(4*n+2)) - int64(2*n)
+				if k < 0 {
+					k = 0
+				}
+				c.Count("elapsed=long-outage")
+			}
 			delta := []int64{0, 1, -1, T / 2, T - 1}[c.Rnd.Intn(5)]
 			now := pt + k*T + delta
 			if c.Rnd.Intn(10) == 0 {
